@@ -187,6 +187,16 @@ static int simpMode(const char *inPath, const char *outPath, const char *chunk)
             long long v = c.first > (size_t)1000000 ? -(long long)(~c.first + 1) : (long long)c.first;
             j.arr().i(v).i((long long)c.second.x).i((long long)c.second.y).end();
         }
+        j.end();
+        // checkpointsOnSegment() of the simplified route, for every segment and the three index modifiers
+        j.k("cos").arr();
+        for (size_t sgm = 0; sgm + 1 < q.size(); sgm++)
+            for (int md = -1; md <= 1; md++) {
+                std::vector<Point> on = q.checkpointsOnSegment(sgm, md);
+                j.arr().i((long long)sgm).i(md).arr();
+                for (auto &pt : on) j.arr().i((long long)pt.x).i((long long)pt.y).end();
+                j.end().end();
+            }
         j.end().end();
         o.line((first ? "" : ",") + j.out); first = false;
     }
